@@ -40,6 +40,20 @@ def single_entry_cases(tier):
             out.append(("name-len-%d/%s" % (n, dialect), [E(p, "file", content=b"n%d" % n)], dialect))
         if n <= 100:
             out.append(("name-len-%d/v7" % n, [E(p, "file", content=b"n%d" % n)], "v7"))
+    # POSIX ustar prefix/name split: every boundary of the 155-byte prefix field and of the 100-byte name field.
+    # a 100-byte last component forces the split right in front of it, so the prefix length is exactly p
+    for p_ in ([1, 50, 99, 100, 101, 102, 128, 154, 155] if quick else list(range(1, 156, 7)) + [98, 99, 100, 101, 102, 153, 154, 155]):
+        for m_ in (100, 1) if p_ > 99 else (100,):
+            pre = name_of_len(p_, 50) if p_ > 2 else b"p" * p_
+            if pre.endswith(b"/") or pre.startswith(b"/") or b"//" in pre:
+                pre = pre.replace(b"/", b"_")
+            if m_ == 1:
+                pre = pre.replace(b"/", b"_")        # a single '/' in the whole path: the only possible split
+            path = pre + b"/" + b"n" * m_
+            sp = tarmk.split_ustar(path)
+            if sp is None or len(sp[1]) != p_:
+                continue
+            out.append(("name-ustar-prefix-%d-name-%d/ustar" % (p_, m_), [E(path, "file", content=b"pfx%d" % p_)], "ustar"))
     for n in lens:
         tg = name_of_len(n, 40)
         for dialect in ("gnu", "pax") + (("ustar",) if n <= 100 else ()):
